@@ -192,7 +192,36 @@ Definition run_seq (c : cfg) (evs : list event) : string :=
       out3 obs spec key
   end.
 
+(* source-derived constants (harness: go/ast over layer_arp.go and arp.go).  "srcarp <payload>": the model's
+   validity test and field decoding on a probe payload the harness built from the SOURCE's lengths, header
+   constants and getter offsets; "srcops": the ARP operation the model puts into the frames of the request paths
+   (announcement, restore, plain request) and of the reply paths (spoof reply, probe reject). *)
+Definition show_srcarp (b : bytes) : string :=
+  match arp_is_valid (Base.Slice.of_bytes b) with
+  | Ok _ => match arp_decode 0 (Base.Slice.of_bytes b) with
+            | Ok p => "valid " ++ dec_of_N (pop p) ++ "." ++ show_mac (psmac p) ++ "." ++ show_ip (psip p)
+                      ++ "." ++ show_mac (ptmac p) ++ "." ++ show_ip (ptip p)
+            | Panic => "panic" | _ => "invalid"
+            end
+  | Panic => "panic"
+  | _ => "invalid"
+  end.
+
+Definition show_srcops : string :=
+  let c := mkCfg 1 2 3 4 5 24 in
+  let p := mkPkt 1 0 9 8 7 6 in
+  join " " (map (fun f => dec_of_N (fop f))
+    [announce c 9; restore c 9; request_to c 9 8; probe_frame c 8; request_raw 9 (mkAddr 1 2) (mkAddr 3 4);
+     spoof_reply c p; probe_reject c p; reply_raw 9 (mkAddr 1 2) (mkAddr 3 4)]).
+
 Definition dispatch (kind : string) (args : list string) : string :=
+  if String.eqb kind "srcarp" then
+    match args with
+    | [h] => match bytes_of_tok h with Some b => out3 (show_srcarp b) "-" "-" | None => BADARGS end
+    | _ => BADARGS
+    end
+  else if String.eqb kind "srcops" then out3 show_srcops "-" "-"
+  else
   if String.eqb kind "seq" then
     match args with
     | ct :: evt =>
